@@ -304,6 +304,55 @@ pub fn try_de(t: &Target, xml: &str, via_reader: bool) -> Result<(), String> {
     }
 }
 
+/// like `try_de`, but returns the Debug rendering of the value (for differential use by C14)
+pub fn try_de_debug(t: &Target, xml: &str, via: Option<Vec<usize>>) -> Result<String, String> {
+    macro_rules! go {
+        ($ty:ty) => {
+            match &via {
+                Some(cuts) => quick_xml::de::from_reader::<_, $ty>(crate::sources::ChunkedBufRead::new(xml.as_bytes(), cuts.clone())).map(|v| format!("{:?}", v)).map_err(|e| e.to_string()),
+                None => quick_xml::de::from_str::<$ty>(xml).map(|v| format!("{:?}", v)).map_err(|e| e.to_string()),
+            }
+        };
+    }
+    SEQ_BUDGET.with(|b| b.set(xml.len() + 16));
+    match t {
+        Target::Fam(ty) => match &via {
+            Some(cuts) => ty.from_reader(crate::sources::ChunkedBufRead::new(xml.as_bytes(), cuts.clone())).map(|v| format!("{:?}", v)).map_err(|e| e.to_string()),
+            None => ty.from_str(xml).map(|v| format!("{:?}", v)).map_err(|e| e.to_string()),
+        },
+        Target::TupleStrInner => go!((String, Inner)),
+        Target::VecTupleInner => go!(Vec<(u8, Inner)>),
+        Target::OptInner => go!(Option<Inner>),
+        Target::Unit => go!(()),
+        Target::Str => go!(String),
+        // HashMap's Debug order is not deterministic: compare a sorted rendering
+        Target::HashMapStr => match &via {
+            Some(cuts) => quick_xml::de::from_reader::<_, std::collections::BTreeMap<String, String>>(crate::sources::ChunkedBufRead::new(xml.as_bytes(), cuts.clone())).map(|v| format!("{:?}", v)).map_err(|e| e.to_string()),
+            None => quick_xml::de::from_str::<std::collections::BTreeMap<String, String>>(xml).map(|v| format!("{:?}", v)).map_err(|e| e.to_string()),
+        },
+        Target::Ignored => go!(IgnoredHolder),
+        Target::OtherEnum => go!(OtherEnum),
+        Target::VecString => go!(Vec<String>),
+        Target::Bool => go!(bool),
+        Target::F64 => go!(f64),
+        Target::Char => go!(char),
+        Target::VecChoice => go!(Vec<Choice>),
+        Target::OptHolder => go!(OptHolder),
+        Target::UnitVec => go!(UnitVec),
+        Target::VecOptString => go!(Bounded<Option<String>>),
+        Target::VecOptInner => go!(Bounded<Option<Inner>>),
+        Target::VecOptU8 => go!(Bounded<Option<u8>>),
+        Target::VecUnit => go!(Bounded<()>),
+        Target::VecVecString => go!(Bounded<Bounded<String>>),
+        Target::BoundedMap => go!(BoundedMap),
+        Target::TupleOpts => go!((Option<String>, Option<Inner>, Option<()>)),
+        Target::ValueOptStr => go!(ValueOptStr),
+        Target::ValueOptChoice => go!(ValueOptChoice),
+        Target::ValueOptInner => go!(ValueOptInner),
+        Target::NestedOpts => go!(NestedOpts),
+    }
+}
+
 pub fn check(c: &Case) -> Verdict {
     // the call itself runs under the engine's catch_unwind
     SEQ_BUDGET.with(|b| b.set(c.input.len() + 16));
@@ -402,7 +451,7 @@ pub fn apply_edits(doc: &str, edits: &[Edit]) -> String {
     toks.concat()
 }
 
-fn target_strategy() -> impl Strategy<Value = Target> {
+pub fn target_strategy() -> impl Strategy<Value = Target> {
     prop_oneof![3 => prop::sample::select(ALL_TYPES.to_vec()).prop_map(Target::Fam), 2 => prop::sample::select(ALL_EXTRA.to_vec())]
 }
 
